@@ -63,6 +63,8 @@ void do_plan(int tier)
         // thread counts around the powers of two where a narrow field, a fixed table or a cap would show
         static const int big[] = {16, 17, 31, 32, 33, 63, 64, 65, 100, 127, 128, 129};
         op.n = big[sim_plan(tier ? 12 : 9)];
+        if (rksim_lane_bit() == LANE_INTERNAL && op.n > 33)
+          op.n = 33;  // enkiTS workers spin before they sleep: a hundred of them cost a minute of simulation per run
         sim_probe(P_LARGE_N);
         large = true;
       }
